@@ -74,6 +74,11 @@ Definition dispatch (req : list Z) : list Z :=
   | 10 :: t => run (f <- dfmt ;; r <- drmode ;; o <- domode ;; raw <- dbool ;; a <- darr ;; vd <- dvdt ;;
                     dret (f, r, o, raw, a, vd))
                 (fun '(f, r, o, raw, a, vd) => eoutcome (ewres f) (set_val_real f r o raw a vd)) t
+  | 11 :: t => run (f <- dfmt ;; r <- drmode ;; o <- domode ;; res <- dlist df64 ;; ims <- dlist df64 ;; dret (f, r, o, res, ims))
+                (fun '(f, r, o, res, ims) =>
+                   eoutcome (fun w => elist (fun c => [c]) (cw_re w) ++ elist (fun c => [c]) (cw_im w)
+                                      ++ ebool (cw_ovf w) ++ ebool (cw_unf w) ++ ebool (cw_inacc w))
+                            (set_val_complex f r o res ims)) t
   | 20 :: t => run (f <- dfmt ;; r <- drmode ;; o <- domode ;; st <- dstatus ;; steps <- dlist dhstep ;; dret (f, r, o, st, steps))
                 (fun '(f, r, o, st, steps) =>
                    eoutcome (elist (fun p => estatus (fst p) ++ elist (fun e => [ecbev e]) (snd p)))
